@@ -1,5 +1,6 @@
 import XalanModel.C15.KeysProofs
 import XalanModel.Generated.C15_FunctionKey
+import XalanModel.Generated.C15_ExecContext
 /-!
 # C15 — key() returns exactly the nodes its xsl:key declaration defines
 
@@ -150,6 +151,38 @@ theorem key_answer_same_after_any_history (env : Env κ ν δ) (skipEmpty : Bool
     (runCalls env skipEmpty [] (h1 ++ [c])).getLast? = (runCalls env skipEmpty [] (h2 ++ [c])).getLast? := by
   simp [key_history_independent env]
 
+/-- **The answer depends on the document of the XPath context node only** — never on the XSLT current node, nor on
+whether the key name is written with a prefix: when both `getNodeSetByKey` overloads pass their `context` parameter
+on, every call of every sequence answers what `key()` answers on fresh tables *for the context node's document*.
+Unconditional otherwise. -/
+theorem key_context_document (env : Env κ ν δ) (ov : Overloads) (skipEmpty : Bool)
+    (hq : ov.qnameUsesContext = true) (hs : ov.stringUsesContext = true) (calls : List (XCall κ δ)) :
+    runXCalls env ov skipEmpty [] calls =
+      calls.map fun c => (functionKey env skipEmpty [] c.contextDoc c.name c.arg).2 := by
+  unfold runXCalls
+  rw [key_history_independent, List.map_map]
+  apply List.map_congr_left
+  intro c _
+  cases hp : c.prefixed <;> simp [XCall.toCall, XCall.keyDoc, hp, hq, hs]
+
+/-- the overloads as regenerated from the current source both use the context node (this theorem stops compiling
+when `translate/c15_execcontext.py` reads anything else out of StylesheetExecutionContextDefault.cpp) -/
+theorem generated_overloads_use_context :
+    XalanModel.Generated.C15_ExecContext.qnameUsesContext = true ∧
+    XalanModel.Generated.C15_ExecContext.stringUsesContext = true := by decide
+
+/-- `key_context_document` for the tree as it is, with the specification as the answer -/
+theorem key_context_document_spec (env : Env κ ν δ) (hidx : env.Indexed) (skipEmpty : Bool) (calls : List (XCall κ δ)) :
+    runXCalls env ⟨XalanModel.Generated.C15_ExecContext.qnameUsesContext,
+        XalanModel.Generated.C15_ExecContext.stringUsesContext⟩ skipEmpty [] calls =
+      calls.map fun c => callSpec env.keyDeclarations (env.doc c.contextDoc) c.name (effValues skipEmpty c.arg) := by
+  rw [key_context_document env _ skipEmpty generated_overloads_use_context.1 generated_overloads_use_context.2]
+  apply List.map_congr_left
+  intro c _
+  show (functionKey env skipEmpty [] c.contextDoc c.name c.arg).2 = _
+  rw [(functionKey_eq env skipEmpty [] (cacheOK_nil env) c.contextDoc c.name c.arg).2,
+    callAnswer_spec env hidx skipEmpty c.contextDoc c.name c.arg]
+
 /-- **One key() call on any valid cache** (every cached table being the one the constructor builds for its
 document — true of the empty cache and preserved by every call): the answer is the specification applied to the
 string values `FunctionKey::execute` looks up (`effValues`), and the cache stays valid.  `skipEmpty` is the guard
@@ -242,6 +275,20 @@ def cxDocEnv : Env String Nat Nat :=
 `gen/corpus/c15/root-in-union.json`. -/
 example : (functionKey cxDocEnv false [] 0 "m" (.nodeset ["a", "w"])).2 = some [0, 1, 2] ∧
     (functionKey cxDocEnv false [] 0 "m" (.str "w")).2 = some [0, 2] := by decide
+/-- two documents: in document 0 the element 1 is filed under "x", in document 1 the elements 1 and 2 -/
+def cxTwoDocs : Env String Nat Nat :=
+  { keyDeclarations := [{ name := "k", isMatch := fun n => n != 0, use := fun _ => .str "x" }]
+    doc := fun d => if d = 0 then Tree.mk 0 [] [Tree.mk 1 [] []] else Tree.mk 0 [] [Tree.mk 1 [] [], Tree.mk 2 [] []]
+    idx := id
+    isDoc := fun n => n == 0 }
+
+/-- **If the string-name overload consulted the current node** (`stringUsesContext = false`) a prefixed `key()` evaluated
+in a predicate over document 1 while the current node is in document 0 would answer from document 0's table; the
+same call with an unprefixed name, or with the current node in document 1, is right. -/
+theorem key_context_document_counterexample :
+    runXCalls cxTwoDocs ⟨true, false⟩ false [] [⟨1, 0, true, "k", .str "x"⟩, ⟨1, 0, false, "k", .str "x"⟩, ⟨1, 1, true, "k", .str "x"⟩] =
+      [some [1], some [1, 2], some [1, 2]] ∧
+    runXCalls cxTwoDocs ⟨true, true⟩ false [] [⟨1, 0, true, "k", .str "x"⟩] = [some [1, 2]] := by decide
 end Counterexample
 
 example : cxEnv.Indexed := by
